@@ -8,7 +8,13 @@
    op = "restart" separates two histories over the same inputs (a new process): memo is kept, so the
    result must also be the same in every history - that is what "whatever happened earlier" means.
    A process-wide registry or cache that leaks into results (core.UUID.UUIDS) makes two histories
-   that visit the inputs in different orders diverge.                                         *)
+   that visit the inputs in different orders diverge.
+   C01 uses the same spec for "parses back into a packet ... with the same field values": op = "hci.parse",
+   key = the bytes of an HCI packet, res = a digest of the canonical field values of the parsed packet (every
+   attribute of a field value as its own entry - an address is its six octets and its address type as a
+   number, whatever the value object's own equality says); the histories are really separate processes
+   that parse the same packets (same octets in the address-like fields, the one-octet fields around them
+   going through their codes) in different orders, "restart" marks the process boundary.          *)
 EXTENDS Sequences, Naturals, TLC, Json, IOUtils, TLCExt
 
 Traces == JsonDeserialize(IOEnv.TRACE_FILE)
